@@ -71,11 +71,17 @@ fn main() {
     let cmd = args[1].as_str();
     let code = match args[2].as_str() {
         "C01" => dispatch::<c01::C01>(cmd, &args),
+        "C04" => dispatch::<grid::C04>(cmd, &args),
         "C05" => dispatch::<c01::C05>(cmd, &args),
         "C06" => dispatch::<structural::C06>(cmd, &args),
         "C07" => dispatch::<structural::C07>(cmd, &args),
         "C11" => dispatch::<fault::C11>(cmd, &args),
         "C12" => dispatch::<fault::C12>(cmd, &args),
+        "C13" => dispatch::<grid::C13>(cmd, &args),
+        "C14" => dispatch::<grid::C14>(cmd, &args),
+        "C15" => dispatch::<grid::C15>(cmd, &args),
+        "C16" => dispatch::<grid::C16>(cmd, &args),
+        "C17" => dispatch::<grid::C17>(cmd, &args),
         other => {
             eprintln!("unknown property {}", other);
             2
